@@ -5,6 +5,7 @@
 package main
 
 import (
+	"encoding/json"
 	"fmt"
 	"math"
 	"sort"
@@ -141,13 +142,12 @@ func blockedHandoff(hc handoffCase, s *kit.Summary, st *kit.Stream) {
 	o, ok := c.Quiesce()
 	if !ok || o.PaceBlocked || len(o.InTransport) != 1 {
 		s.Skipped["handoff_scenario_not_reached"]++
-		c.Stop()
-		c.ReleaseTransport(0)
-		for c.Receive() != "c" {
-			if oo, _ := c.Quiesce(); oo.PaceBlocked {
-				c.ReleasePace(true)
-			}
-		}
+		// the unchanged code always gets here with the loop blocked in the hand-off; code that does not is
+		// different from the model (which has no room for a released hit other than a worker's hands)
+		jb, _ := json.Marshal(hc)
+		s.Diverge("c04.handoff_blocks", string(jb), fmt.Sprintf("after two releases with the only worker busy: pace_blocked=%v in_transport=%v quiescent=%v", o.PaceBlocked, o.InTransport, ok),
+			"the loop is blocked handing the second hit to a worker (pace_blocked=false, one hit in the transport)")
+		drainCtl(c)
 		return
 	}
 	time.Sleep(time.Duration(hc.BlockNs))
@@ -173,7 +173,11 @@ func blockedHandoff(hc handoffCase, s *kit.Summary, st *kit.Stream) {
 	}
 	s.Case(fmt.Sprint("handoff:", hc), true)
 	s.Count("handoff:past_deadline=" + fmt.Sprint(pastDeadline))
-	// drain
+	drainCtl(c)
+}
+
+// drainCtl stops a controlled attack and lets everything that is blocked go, whatever shape it is in.
+func drainCtl(c *attackctl.Ctl) {
 	c.Stop()
 	for guard := 0; guard < 1000; guard++ {
 		oo, _ := c.Quiesce()
